@@ -494,6 +494,9 @@ def _rand_message(rng, state, kind, message_id, ids, pool=None, ro_id='RO', timi
                     i = rng.choice(elsewhere)      # an item ID that only ANOTHER story uses (IDs are per story)
                 out.append(rand_item(rng, i, pool, rich))
             return out
+        if kind in ('EAItemMove', 'EAItemDelete', 'EAItemSwap') and S and rng.random() < 0.12:
+            # a storyID inside element_source (mostly of ANOTHER story): the items are still the target story's
+            kw = dict(kw, source_story=rng.choice(S))
         if kind in ('roItemInsert', 'EAItemInsert'):
             t = ref(I, allow_absent=False)
             return B.msg_doc(kind, message_id, ro_id, story_ref=sref, target=t, carried=carried_items(), **kw)
@@ -735,6 +738,15 @@ def item_grid_messages(story_id, I, other_story=None, kmax=3, full=True, unk='zz
         for a in pool:
             for b in pool:
                 yield 'EAItemSwap', dict(story_ref=sref, ids=[a, b])
+        if other_story:
+            # element_source also holds a storyID - of another story that has items with the same IDs
+            for tup in _k_tuples(list(I), min(kmax, 2)):
+                rest = [x for x in I if x not in tup]
+                for t in rest[:2] + [BLANK]:
+                    yield 'EAItemMove', dict(story_ref=sref, ids=tup, target=t, source_story=other_story)
+                yield 'EAItemDelete', dict(story_ref=sref, ids=tup, source_story=other_story)
+                if len(tup) == 2:
+                    yield 'EAItemSwap', dict(story_ref=sref, ids=tup, source_story=other_story)
     # addressed story unknown / blank, for every kind
     for sref in ('ZZ-nostory', BLANK):
         some = I[:1] or ['q']
